@@ -120,9 +120,11 @@ PROPS["C12"] = {
              "policy rejection; distinct = (subject hash, offset, kind)."),
     "assumptions": ["a crash is modelled as an observation at a callback boundary, not a kill between two syscalls"],
     "quick": [rapid("packwriter", "^TestPropPackWriter$", 12, shards=3), rapid("unpackreader", "^TestPropUnpackReader$", 12, shards=3),
-              rapid("policy", "^TestPropPolicy$", 600, shards=1)],
-    "thorough": [rapid("packwriter", "^TestPropPackWriter$", 150, shards=7), rapid("unpackreader", "^TestPropUnpackReader$", 150, shards=7),
-                 rapid("policy", "^TestPropPolicy$", 20000, shards=1)],
+              rapid("policy", "^TestPropPolicy$", 600, shards=1), rapid("bundlefaults", "^TestPropBundleFaults$", 25, shards=4),
+              rapid("diagnostics", "^TestPropDiagnostics$", 800, shards=1)],
+    "thorough": [rapid("packwriter", "^TestPropPackWriter$", 150, shards=5), rapid("unpackreader", "^TestPropUnpackReader$", 150, shards=5),
+                 rapid("policy", "^TestPropPolicy$", 20000, shards=1), rapid("bundlefaults", "^TestPropBundleFaults$", 400, shards=8),
+                 rapid("diagnostics", "^TestPropDiagnostics$", 20000, shards=2)],
 }
 
 PROPS["C03"] = {
